@@ -11,6 +11,10 @@
  * whatever ts_decaps outputs for a packet is a suffix of that packet of at most size-4 octets;
  * ts_pes_decaps never outputs more octets than it received.
  *
+ * In modes 1 and 3 the two upper bits of the mode octet change the routing after the third packet (1: one ts_split output
+ * released; 2: one more output on the PID; 3: the PID removed from ts_pid_filter / the output released and allocated again):
+ * the same oracle holds whatever reaches the pipes, and ts_decaps answers get_packets_lost at the end.
+ *
  * Packet encoding on the tape (one control octet, then):
  *   ctl&2 == 0  template: sync 0x47 (ctl&0x80: from the tape), 3 header octets from the tape adjusted by
  *               ctl&0x08 (arbitrary counter, else sequential), ctl&0x10 (arbitrary adaptation_field_control,
@@ -25,11 +29,12 @@
 #include "C15_ref.h"
 
 enum { CL_RAW, CL_TEMPLATE, CL_PATCH, CL_ODDSIZE, CL_SEGMENTED, CL_TO_PESD, CL_SYNC_LOST, CL_AF_REJECT, CL_FATAL,
-       CL_CLOCK_REF, CL_CLOCK_TS, CL_MODE_SPLIT, CL_MODE_PESD, CL_DUP_OUTPUTS, CL_SHORT_LT4 };
+       CL_CLOCK_REF, CL_CLOCK_TS, CL_MODE_SPLIT, CL_MODE_PESD, CL_DUP_OUTPUTS, CL_SHORT_LT4, CL_CHURN };
 static const char *const class_names[] = {
     "raw_packet", "template_packet", "patched_repeat", "odd_size_packet", "segmented_packet", "reached_pes_decaps_output",
     "pes_sync_lost", "packet_dropped_by_ts_decaps", "fatal_event", "clock_ref_event", "clock_ts_event",
-    "mode_pid_filter_split", "mode_pes_decaps_direct", "mode_split_two_outputs", "packet_shorter_than_header", NULL };
+    "mode_pid_filter_split", "mode_pes_decaps_direct", "mode_split_two_outputs", "packet_shorter_than_header",
+    "routing_changed_midstream", NULL };
 
 #define P_PIDF 0
 #define P_SPLIT 1
@@ -66,15 +71,18 @@ static int run(const uint8_t *tape_, size_t len, struct vp_report *rep, unsigned
     c->np = 0;
     if (fx_init(fx) != 0) return vp_internal(rep, "fx_init");
 
-    unsigned mode = tp_u8(&t) % 4;
-    h = vp_hash_mix(h, mode);
+    uint8_t m0 = tp_u8(&t);
+    unsigned mode = m0 % 4;
+    unsigned churn = (mode == 1 || mode == 3) ? m0 >> 6 : 0;
+    h = vp_hash_mix(h, mode | churn << 2);
     if (mode == 1) cls |= 1u << CL_MODE_SPLIT;
     if (mode == 2) cls |= 1u << CL_MODE_PESD;
     if (mode == 3) cls |= 1u << CL_DUP_OUTPUTS;
     R("C15/corrupt mode=%s\n", mode == 0 ? "decaps+pesd" : mode == 1 ? "pid_filter+split+decaps+pesd" : mode == 2 ? "pesd direct" : "split(2 outputs)+decaps+pesd");
 
     /* ---------------- pipeline ---------------- */
-    struct upipe *pidf = NULL, *split = NULL, *subm = NULL, *subn = NULL, *decaps = NULL, *pesd = NULL, *head = NULL;
+    struct upipe *pidf = NULL, *split = NULL, *subm = NULL, *subn = NULL, *subx = NULL, *decaps = NULL, *pesd = NULL, *head = NULL;
+    struct uref *sfd_keep = NULL;
     fx_rec_init(fx, &c->sink, P_SINK, NULL);
     pesd = upipe_void_alloc(upipe_ts_pesd_mgr_alloc(), fx_probe(fx, P_PESD));
     decaps = upipe_void_alloc(upipe_ts_decaps_mgr_alloc(), fx_probe(fx, P_DECAPS));
@@ -102,7 +110,7 @@ static int run(const uint8_t *tape_, size_t len, struct vp_report *rep, unsigned
             }
             head = split;
         }
-        if (sfd) uref_free(sfd);
+        sfd_keep = sfd;
     }
     if (!ret && mode == 1) {
         pidf = upipe_void_alloc(upipe_ts_pidf_mgr_alloc(), fx_probe(fx, P_PIDF));
@@ -118,6 +126,18 @@ static int run(const uint8_t *tape_, size_t len, struct vp_report *rep, unsigned
     unsigned seqcc = 0;
     while (!ret && !tp_done(&t) && c->np < MAXP) {
         struct ipkt *p = &c->p[c->np];
+        if (churn && c->np == 3 && sfd_keep) {
+            cls |= 1u << CL_CHURN;
+            R("  routing change %u\n", churn);
+            if (churn == 1) { if (subn) { upipe_release(subn); subn = NULL; } else if (subm) { upipe_release(subm); subm = NULL; } }
+            else if (churn == 2) { subx = upipe_flow_alloc_sub(split, fx_probe(fx, P_SUBN), sfd_keep); if (!subx || !ubase_check(upipe_set_output(subx, decaps))) { ret = vp_internal(rep, "split sub 3"); break; } }
+            else if (pidf) upipe_ts_pidf_del_pid(pidf, pid);
+            else if (subm) {
+                upipe_release(subm);
+                subm = upipe_flow_alloc_sub(split, fx_probe(fx, P_SUBM), sfd_keep);
+                if (!subm || !ubase_check(upipe_set_output(subm, decaps))) { ret = vp_internal(rep, "split sub again"); break; }
+            }
+        }
         uint8_t ctl = tp_u8(&t);
         int nseg = 0; size_t seg[2] = { 0, 0 };
         bool start_flag = false;
@@ -211,9 +231,12 @@ static int run(const uint8_t *tape_, size_t len, struct vp_report *rep, unsigned
         upipe_input(head, uref, NULL);
     }
     fx->tag = -1;
+    if (decaps && mode != 2) { uint64_t lost = 0; if (!ubase_check(upipe_ts_decaps_get_packets_lost(decaps, &lost))) FAIL("C15/corrupt/packets-lost", "get_packets_lost failed"); }
+    if (sfd_keep) uref_free(sfd_keep);
     if (pidf) upipe_release(pidf);
     if (subm) upipe_release(subm);
     if (subn) upipe_release(subn);
+    if (subx) upipe_release(subx);
     if (split) upipe_release(split);
     if (decaps) upipe_release(decaps);
     if (pesd) upipe_release(pesd);
